@@ -19,6 +19,10 @@ What is EXPLORED / TRUSTED rather than proved: that numpy's `Generator.choice(a,
 and independent (trusted; a chi-square frequency / pairwise-independence test over many real draws is run as a
 supporting TEST and reported under coverage.explored, it is not the decision procedure).
 
+The model universe contains USER-DEFINED IID models as well (user_specs: subclasses overriding
+probability_distribution only; Pr(I) unrelated to 1 - p, zero entries, parameters that are not probabilities of error at
+all: 2.5, pi, 1e6, -0.5); they go through the same exact twin-generator comparison as the built-in models.
+
 Beyond single calls: (a) the error must be a function of (model, code, p, generator state) ONLY - the same
 configurations are evaluated in fresh interpreters that differ in PYTHONHASHSEED (cross_process_cases) and inside call
 histories in which the caller modifies, in place, the arrays earlier calls returned (history_cases: value checks against
@@ -62,7 +66,15 @@ RULE = ('every IID model of qecsim.models.generic (depolarizing, bit-flip, phase
         'with the model from the bits it had when returned, zero-probability Paulis, same state => same error, '
         'results share no memory with arrays the caller holds, held arrays unchanged. EXTREME q statistically: exact '
         'binomial test (alarm below 1e-9) of the flip count over 3.6e6 real syndrome bits at q = 7e-6 / 1-7e-6 (thorough: '
-        'also 2^-18, 1-2^-18). non-trivial = a case in which at least one '
+        'also 2^-18, 1-2^-18). USER-DEFINED IID MODELS: subclasses of SimpleErrorModel / DepolarizingErrorModel / '
+        'BitFlipErrorModel / PhaseFlipErrorModel that override probability_distribution only and inherit generate(): '
+        'channel parameterisation (1-3p/4, p/4, p/4, p/4) up to p = 4/3, fidelity (p = Pr I), seven fixed distributions '
+        'independent of p (uniform, zero entries, point masses on Y and on I), rotation angle about X/Y/Z (any real '
+        'p), decay time (p up to 1e6), four arbitrary per-p tables in sixteenths with zero entries; parameters '
+        'include 1.2, 4/3, 2.5, pi, 7, 40, 1e6, -0.5, -1 (generate() itself, the run functions only with p in [0,1]); '
+        'treated exactly like the built-in models in the generate / fresh-interpreter / run / chi-square parts (Pr(I) '
+        'is unrelated to 1-p, so the draw must use the distribution the model returns); generate() raising on a valid '
+        'distribution is a failing input. non-trivial = a case in which at least one '
         'uniform is consumed and the distribution is not a point mass on I (p > 0) or, for runs, q > 0 or T > 1')
 
 DEN = 2 ** 53
@@ -100,8 +112,102 @@ def model_specs():
 def make_model(spec):
     import qecsim.models.generic as g
     name, args = spec
+    if name == USER:
+        return user_model(*args)
     args = [tuple(a) if isinstance(a, list) else a for a in args]
     return getattr(g, name)(*args)
+
+
+# ------------------------------------------------------------------------------------------ user-defined IID models
+# The property quantifies over EVERY IID model, not only the ones shipped with qecsim: a user writes a subclass of
+# SimpleErrorModel (or of one of the built-in models), overrides probability_distribution and inherits generate().
+# Nothing ties Pr(I) of such a model to 1 - probability, and `probability` need not be a probability of error at all (a
+# channel parameter, a fidelity, a rotation angle, a time) - generate() must draw from whatever valid distribution
+# probability_distribution returns.  spec = ('UserIID', [kind, param, base class name]).
+
+USER = 'UserIID'
+
+
+def user_dist(kind, param, p):
+    """single-qubit distribution (Pr I, X, Y, Z) of the user model `kind` at parameter p (plain python floats)"""
+    p = float(p)
+    if kind == 'channel':        # rho -> (1-p) rho + p I/2 ; valid for p in [0, 4/3]
+        return 1 - 3 * p / 4, p / 4, p / 4, p / 4
+    if kind == 'fidelity':       # p IS Pr(I)
+        return p, (1 - p) / 3, (1 - p) / 3, (1 - p) / 3
+    if kind == 'fixed':          # the same distribution whatever p
+        return tuple(float(x) for x in param)
+    if kind == 'angle':          # rotation by the angle p about one axis: any real p
+        c = math.cos(p / 2) ** 2
+        d = [c, 0.0, 0.0, 0.0]; d['IXYZ'.index(param)] = 1 - c
+        return tuple(d)
+    if kind == 'decay':          # depolarizing for a time p >= 0
+        e = math.exp(-p)
+        return (1 + 3 * e) / 4, (1 - e) / 4, (1 - e) / 4, (1 - e) / 4
+    if kind == 'table':          # an arbitrary distribution per (param, p): sixteenths, entries zero with chance 0.3
+        import random
+        rr = random.Random('c17-table|{}|{!r}'.format(param, p))
+        w = [0 if rr.random() < 0.3 else rr.randrange(1, 17) for _ in range(4)]
+        if sum(w) == 0:
+            w[rr.randrange(4)] = 1
+        return tuple(x / sum(w) for x in w)
+    raise ValueError(kind)
+
+
+USER_PS = {
+    'channel': PS + [0.3, 0.6, 1.2, 4 / 3],
+    'fidelity': PS + [0.3, 0.6],
+    'fixed': PS + [0.3, 2.5, -1.0, 1e6],
+    'angle': [0.0, 1e-12, 0.1, 0.5, 1.0, 2.5, math.pi, 7.0, -0.5],
+    'decay': [0.0, 1e-12, 0.1, 0.5, 1.0, 2.5, 40.0, 1e6],
+    'table': PS + [0.3, 0.6, 2.5, -0.5],
+}
+
+_user_classes = {}
+
+
+def user_model(kind, param=None, base='SimpleErrorModel'):
+    import qecsim.models.generic as g
+    if base not in _user_classes:
+        class UserIID(getattr(g, base)):
+            """what a user of qecsim writes: probability_distribution (and label) only; generate() is inherited"""
+
+            def __init__(self, kind, param):
+                self.kind, self.param = kind, param
+
+            def probability_distribution(self, probability):
+                return user_dist(self.kind, self.param, probability)
+
+            @property
+            def label(self):
+                return 'User IID {} {}'.format(self.kind, self.param)
+
+        _user_classes[base] = UserIID
+    return _user_classes[base](kind, param)
+
+
+def user_specs():
+    specs = [(USER, ['channel', None, 'SimpleErrorModel']), (USER, ['channel', None, 'DepolarizingErrorModel']),
+             (USER, ['fidelity', None, 'SimpleErrorModel']), (USER, ['decay', None, 'SimpleErrorModel']),
+             (USER, ['decay', None, 'BitFlipErrorModel'])]
+    for d in ((0.25, 0.25, 0.25, 0.25), (0.0, 0.5, 0.5, 0.0), (0.5, 0.0, 0.0, 0.5), (0.0, 0.0, 1.0, 0.0),
+              (0.125, 0.5, 0.375, 0.0), (0.0, 1 / 3, 1 / 3, 1 / 3), (1.0, 0.0, 0.0, 0.0)):
+        specs.append((USER, ['fixed', list(d), 'SimpleErrorModel']))
+    for axis in 'XYZ':
+        specs.append((USER, ['angle', axis, 'SimpleErrorModel']))
+    for salt in range(4):
+        specs.append((USER, ['table', salt, 'PhaseFlipErrorModel' if salt == 3 else 'SimpleErrorModel']))
+    return specs
+
+
+def ps_for(mspec):
+    """the parameter values a model is evaluated at (generate() itself does not restrict the parameter)"""
+    return USER_PS[mspec[1][0]] if mspec[0] == USER else PS
+
+
+def ps_unit(mspec):
+    """... those the run functions of qecsim.app accept (they require 0 <= error_probability <= 1)"""
+    return [p for p in ps_for(mspec) if 0 <= p <= 1]
 
 
 def code_specs():
@@ -329,10 +435,15 @@ def gen_case(ctx, mspec, cspec, p, seed, pre):
     if pre:
         rng.random(pre)
     u = twin.random(pre + n + 3)
-    err = em.generate(code, p, rng)
+    inp = {'model': mspec, 'code': cspec, 'p': p, 'seed': seed, 'pre': pre}
+    try:
+        err = em.generate(code, p, rng)
+    except Exception as ex:
+        ctx.monitor_fail('generate raised {!r} although probability_distribution({!r}) = {} is a valid distribution'
+                         .format(ex, p, tuple(float(x) for x in dist))[:400], inp, key='generate-raises')
+        return
     consumed = locate(u, rng.random(), pre)
     err = np.asarray(err)
-    inp = {'model': mspec, 'code': cspec, 'p': p, 'seed': seed, 'pre': pre}
     # -- direct monitors (property itself, independent of the model)
     if err.shape != (2 * n,) or not np.isin(err, (0, 1)).all():
         ctx.monitor_fail('generated error is not a binary vector of length 2n', inp, key='generate-shape')
@@ -401,15 +512,22 @@ def run_case(ctx, mspec, cspec, p, q, T, R, seed, api, pre=0):
     if pre:
         assert api in ('once_ftp', 'once')
         rng.random(pre); inp['pre'] = pre
-    with core.TimeLimit(120):
-        if api == 'once_ftp':
-            app.run_once_ftp(code, T, rem, dec, p, q, rng)
-        elif api == 'ftp':
-            app.run_ftp(code, T, rem, dec, p, q, max_runs=R, random_seed=seed)
-        elif api == 'once':
-            app.run_once(code, rem, dec, p, rng)
-        else:
-            app.run(code, rem, dec, p, max_runs=R, random_seed=seed)
+    try:
+        with core.TimeLimit(120):
+            if api == 'once_ftp':
+                app.run_once_ftp(code, T, rem, dec, p, q, rng)
+            elif api == 'ftp':
+                app.run_ftp(code, T, rem, dec, p, q, max_runs=R, random_seed=seed)
+            elif api == 'once':
+                app.run_once(code, rem, dec, p, rng)
+            else:
+                app.run(code, rem, dec, p, max_runs=R, random_seed=seed)
+    except ValueError as ex:
+        # all arguments are in their documented domains and the distribution is valid: nothing may be rejected
+        ctx.monitor_fail('{} raised {!r} although p, q are in [0,1] and probability_distribution({!r}) = {} is a valid '
+                         'distribution'.format(api, ex, p, tuple(float(x) for x in dist))[:400], inp,
+                         key='generate-raises')
+        return
     qq_expected = (0.0 if T == 1 else p) if q is None else q
     if api in ('once', 'run'):
         qq_expected = 0.0
@@ -692,8 +810,8 @@ def cross_process_cfgs(ctx):
              ('toric.ToricCode', [3, 4]), ('rotatedplanar.RotatedPlanarCode', [7, 9]), ('color.Color666Code', [7]),
              ('planar.PlanarCode', [10, 10])]
     cfgs = []
-    for mspec in model_specs():
-        for p in PS + [0.3]:
+    for mspec in model_specs() + user_specs():
+        for p in (PS + [0.3] if mspec[0] != USER else ps_for(mspec)):
             try:
                 if not dist_valid(make_model(mspec).probability_distribution(p)):
                     continue
@@ -703,8 +821,8 @@ def cross_process_cfgs(ctx):
                 cfgs.append({'kind': 'gen', 'model': list(mspec), 'code': list(r.choice(codes)), 'p': p,
                              'seed': r.randrange(2 ** 32), 'pre': r.choice([0, 0, 3])})
     for _ in range(ctx.scale(30, 200)):
-        mspec = r.choice(model_specs())
-        p = r.choice(PS)
+        mspec = r.choice(model_specs() + user_specs())
+        p = r.choice(ps_unit(mspec))
         try:
             if not dist_valid(make_model(mspec).probability_distribution(p)):
                 continue
@@ -945,13 +1063,13 @@ def run(ctx):
     r = ctx.rng
     ctx.assumptions = list(ASSUMPTIONS)
     check_numpy_contract(ctx)
-    mspecs = model_specs(); cspecs = code_specs()
+    mspecs = model_specs(); cspecs = code_specs(); uspecs = user_specs()
     quick = ctx.quick()
 
     # A. generate(): every model x every p x codes x seeds
     dists = []
-    for mspec in mspecs:
-        for p in PS:
+    for mspec in mspecs + uspecs:
+        for p in ps_for(mspec):
             try:
                 d = make_model(mspec).probability_distribution(p)
                 if dist_valid(d):
@@ -970,8 +1088,8 @@ def run(ctx):
     # B. whole runs: recorded step errors and measurement flips from one stream
     small = [c for c in cspecs if make_code(c).n_k_d[0] <= (60 if quick else 200)]
     for it in range(ctx.scale(600, 4000)):
-        mspec = r.choice(mspecs); cspec = r.choice(small)
-        p = r.choice(PS); T = r.choice([1, 1, 2, 3, 5]); q = r.choice([None, None, 0.0, 1e-12, 0.3, 1.0, 0])
+        mspec = r.choice(mspecs if r.random() < 0.75 else uspecs); cspec = r.choice(small)
+        p = r.choice(ps_unit(mspec)); T = r.choice([1, 1, 2, 3, 5]); q = r.choice([None, None, 0.0, 1e-12, 0.3, 1.0, 0])
         api = r.choice(['once_ftp', 'once_ftp', 'ftp', 'ftp', 'once', 'run'])
         R = r.choice([1, 2, 3]) if api in ('ftp', 'run') else 1
         if api in ('once', 'run'):
@@ -991,8 +1109,8 @@ def run(ctx):
     # D. supporting TEST (not the decision procedure): chi-square frequencies / pairwise independence / flips
     n_tests = 0; n_draws = 0; min_p = 1.0
     big = ('rotatedplanar.RotatedPlanarCode', [20, 20])
-    for mspec in (r.sample(mspecs, 6) if quick else mspecs):
-        p = r.choice([0.1, 0.5, 0.9])
+    for mspec in (r.sample(mspecs, 6) + r.sample(uspecs, 3) if quick else mspecs + uspecs):
+        p = r.choice([0.1, 0.5, 0.9] if mspec[0] != USER else [x for x in ps_for(mspec) if x not in (0.0, 1e-12)])
         em = make_model(mspec)
         try:
             if not dist_valid(em.probability_distribution(p)):
@@ -1000,7 +1118,13 @@ def run(ctx):
         except Exception:
             continue
         seeds = [r.randrange(2 ** 32) for _ in range(ctx.scale(100, 500))]
-        ps_, pp_, nd, detail = freq_test(em, make_code(big), p, seeds)
+        try:
+            ps_, pp_, nd, detail = freq_test(em, make_code(big), p, seeds)
+        except ValueError as ex:
+            ctx.monitor_fail('generate raised {!r} although probability_distribution({!r}) of {} is a valid distribution'
+                             .format(ex, p, mspec)[:400], {'model': mspec, 'code': big, 'p': p, 'seed': seeds[0]},
+                             key='generate-raises')
+            continue
         n_tests += 2; n_draws += nd; min_p = min(min_p, ps_, pp_)
         if ps_ < P_CHI or pp_ < P_CHI:
             ctx.monitor_fail('TEST: empirical {} frequencies of {} at p={} inconsistent with the distribution '
@@ -1056,8 +1180,14 @@ def property_check(meta, seeds_base=12345, n_seeds=150):
     dist = [float(x) for x in em.probability_distribution(p)]
     base = {'model': mspec, 'code': cspec, 'p': p}
     # zero-probability Paulis / shape / determinism on a handful of seeds
+    if not dist_valid(dist):
+        return None
     for sd in [meta.get('seed', 0)] + list(range(seeds_base, seeds_base + 20)):
-        e = np.asarray(em.generate(code, p, np.random.default_rng(sd)))
+        try:
+            e = np.asarray(em.generate(code, p, np.random.default_rng(sd)))
+        except Exception as ex:
+            return dict(base, what='generate raised {!r} although probability_distribution({!r}) = {} is a valid '
+                                   'distribution'.format(ex, p, dist)[:400], seed=sd, key='generate-raises')
         if e.shape != (2 * n,) or not np.isin(e, (0, 1)).all():
             return dict(base, what='generated error is not a binary vector of length 2n', seed=sd, error=str(e)[:200])
         letters = pauli_letters(e, n)
